@@ -9,11 +9,11 @@ Require Import Base M_Bytecode M_Analysis M_WithMachine M_Cert P_Cert X_WMExampl
    enter has completed and whose exit has not, outermost first, each with the identical
    manager instance, the right is_async, is_exiting for the one whose exit is in progress —
    and no warning. *)
-Theorem C01_exact_suspended : forall c t ct, checkk KSusp c t ct = true ->
-  forall s, reach c t s ->
+Theorem C01_exact_suspended : forall v c t ct, checkk v KSusp c t ct = true ->
+  forall s, reach v c t s ->
   forall lasti st tr, In (false, lasti, st, tr) (obs c s) ->
-  trickery c t false lasti st = TOk (expected tr).
-Proof. intros c t ct Hc s Hr lasti st tr Hin. exact (analysis_exact KSusp c t ct Hc s Hr false lasti st tr Hin (or_introl (conj eq_refl eq_refl))). Qed.
+  trickery v c t false lasti st = TOk (expected tr).
+Proof. intros v c t ct Hc s Hr lasti st tr Hin. exact (analysis_exact v KSusp c t ct Hc s Hr false lasti st tr Hin (or_introl (conj eq_refl eq_refl))). Qed.
 Print Assumptions C01_exact_suspended.
 
 (* what [expected] says, spelled out: one entry per truth entry that is not still entering,
@@ -29,30 +29,30 @@ Proof. exact expected_spec. Qed.
 Print Assumptions C01_expected_spec.
 
 (* the instance invariant behind "the identical manager object" *)
-Theorem C01_site_determines_instance : forall c t ct, checkk KSusp c t ct = true ->
-  forall s, reach c t s -> Inv s.
-Proof. exact (inv_reach KSusp). Qed.
+Theorem C01_site_determines_instance : forall v c t ct, checkk v KSusp c t ct = true ->
+  forall s, reach v c t s -> Inv s.
+Proof. intros v. exact (inv_reach v KSusp). Qed.
 Print Assumptions C01_site_determines_instance.
 
 (* non-vacuity: a real 3.12 code object (two nested async with, then a with), its certificate
    passes, and the machine reaches a suspension inside both managers / inside __aexit__ *)
-Example C01_example_check : checkk KSusp ex_code ex_table ex_cert = true.
+Example C01_example_check : checkk V312 KSusp ex_code ex_table ex_cert = true.
 Proof. vm_compute. reflexivity. Qed.
 Example C01_example_suspended_in_body :
-  exists s, reach ex_code ex_table s /\ length (truth s) = 2 /\
+  exists s, reach V312 ex_code ex_table s /\ length (truth s) = 2 /\
             exists lasti st tr, In (false, lasti, st, tr) (obs ex_code s) /\ length (expected tr) = 2.
 Proof.
-  destruct (exec ex_code ex_table ex_path_body (mk 0 [] [])) as [s|] eqn:E; [|vm_compute in E; discriminate].
+  destruct (exec V312 ex_code ex_table ex_path_body (mk 0 [] [])) as [s|] eqn:E; [|vm_compute in E; discriminate].
   exists s. split; [eapply exec_reach; [apply reach_init|exact E]|].
   vm_compute in E. inversion E; subst; clear E. split; [reflexivity|].
   eexists _, _, _. split; [left; reflexivity|reflexivity].
 Qed.
 Example C01_example_suspended_in_aexit :
-  exists s, reach ex_code ex_table s /\
+  exists s, reach V312 ex_code ex_table s /\
             exists lasti st tr, In (false, lasti, st, tr) (obs ex_code s)
                                 /\ map (@c_exiting nat) (expected tr) = [false; true].
 Proof.
-  destruct (exec ex_code ex_table ex_path_aexit (mk 0 [] [])) as [s|] eqn:E; [|vm_compute in E; discriminate].
+  destruct (exec V312 ex_code ex_table ex_path_aexit (mk 0 [] [])) as [s|] eqn:E; [|vm_compute in E; discriminate].
   exists s. split; [eapply exec_reach; [apply reach_init|exact E]|].
   vm_compute in E. inversion E; subst; clear E.
   eexists _, _, _. split; [left; reflexivity|reflexivity].
